@@ -94,9 +94,36 @@ func modelledFormats() []fmtDef {
 	mp := caps{null: true, boolean: true, float: true, bytes: true, intMin: minI64, intMax: maxU64, maxDepth: 4}
 	cb := caps{null: true, boolean: true, float: true, bytes: true, intMin: negTwo64, intMax: maxU64, maxDepth: 4}
 	bc := caps{intMin: minI64, intMax: maxI64, maxDepth: 4}
+	bs := caps{null: true, boolean: true, float: true, bytes: true, intMin: minI64, intMax: maxU64, maxDepth: 4}
 	return []fmtDef{
+		{name: "bson", caps: bs, enc: encBson, domain: func(v *val) *val {
+			v = bsonDomain(v)
+			if v.k != kMap {
+				v = vMap(vStr("v"), v)
+			}
+			return v
+		}, directed: func() []*val {
+			vs := directedCommon(bs, []int{0, 1, 2, 11, 12, 13, 15, 16, 17, 255, 256}, []int{65536})
+			vs = append(vs, vBytes([]byte("0123456789ab")), vBytes([]byte("0123456789abcdef")))
+			return vs
+		}, bad: []string{
+			"", "05", "0500", "04000000" + "00", "0400000000", "00000000", "ffffffff00", // size too small / negative / frame without terminator
+			"0c000000106100010000", "0d000000106100010000000000", // truncated int32 / size beyond the buffer
+			"0a000000" + "02" + "6100" + "05000000" + "00", // string longer than the frame
+			"0b000000" + "05" + "6100" + "ffffffff" + "00" + "00", // binary with negative length
+			"08000000" + "10" + "61" + "6200", // name without NUL inside the frame
+			"09000000" + "20" + "6100" + "0100" + "", // unknown element type swallows the frame
+		}},
 		{name: "msgpack", caps: mp, enc: encMsgpack, directed: func() []*val {
-			return directedCommon(mp, []int{0, 1, 15, 16, 17, 31, 32, 33, 255, 256, 257}, []int{65535, 65536})
+			vs := directedCommon(mp, []int{0, 1, 15, 16, 17, 31, 32, 33, 255, 256, 257}, []int{65535, 65536})
+			for _, n := range []int{0, 1, 2, 3, 4, 8, 9, 16, 17, 255} {
+				b := make([]byte, n)
+				for i := range b {
+					b[i] = byte(0xe2 - i*7)
+				}
+				vs = append(vs, &val{k: kBytes, s: b, raw: true}, vArr(&val{k: kBytes, s: b, raw: true}, vI(1)))
+			}
+			return vs
 		}, bad: []string{"c1", "91c1", "81a161c1", "dc0001c1"}},
 		{name: "cbor", caps: cb, enc: encCbor, directed: func() []*val {
 			vs := directedCommon(cb, []int{0, 1, 23, 24, 25, 31, 32, 40, 255, 256, 257}, []int{65535, 65536})
